@@ -248,6 +248,11 @@ def run(ctx, prop):
         # the 16-bit position table of the fast compressor: exact inside the window, aliases (possibly exactly W back)
         # outside - TLC at W = 8, Apalache with the real constants
         ctx.mc("FastTable", timeout=300, workers=2)
+        # the hash / chain tables of the HC compressor: the search never reads a stale slot, whatever the hash function,
+        # the skips and the match lengths (every hash function over L + 1 positions and 2 buckets)
+        ctx.mc("HCChain", cfg_text="SPECIFICATION Spec\nCONSTANTS\n  W = 4\n  L = %d\n  HB = 2\n  MaxSkip = 2\n  MaxMatch = 6\n"
+                                   "INVARIANTS\n  TablesBehind\n  WalkSound\n  WalkComplete\nCHECK_DEADLOCK FALSE\n" % (9 if q else 11),
+               timeout=900, workers=4)
         done = 0
         for inv in ("InWindowExact", "AlwaysBehind", "StaleAliases", "DistanceWOccurs"):
             ok, text = vlib.run_apalache("FastTableInd", "Init", inv, 0, next_="Next")
